@@ -390,6 +390,8 @@ def iter_clone_from(fns, src, nmax, name=None):
         if kind == 'ret':
             ex.require(s2, z3.And(ULE(cur[1], cur[2]), ULE(cur[2], N)), 'iterator invariant index <= index_back <= N broken', 'post')
             ex.require(s2, cur[2] - cur[1] == B2 - I2, 'after clone_from the receiver has a different number of remaining elements than the source', 'post')
+        if kind == 'unwind':
+            ex.require(s2, z3.BoolVal('own_panic' not in s2.notes), 'clone_from panics on its own although neither T::clone nor a destructor panicked', 'end(unwind)')
         s2.events.append('[%s] owner drops the receiver' % kind)
         for (s3, k3, _) in ex.run_fn(s2, ex.pick(ex.index[('Drop', 'GenericArrayIter', 'drop')]), [Ref(dst, ())]):
             if kind == 'ret' and k3 == 'ret':
